@@ -73,9 +73,10 @@ static Ref classify(const uint8_t *p, size_t n, const Knowns &k) {
     Question qq; qq.name = nm.labels; qq.type = rd16(p + nm.next); qq.klass = rd16(p + nm.next + 2); off = nm.next + 4;
     r.q.push_back(qq); std::string js = join(nm.labels); r.qstr.push_back(std::string(js.c_str()));     // what a C string can carry: cut at the first NUL
     if (!plain_labels(nm.labels)) r.plain = false;
+    for (auto &l : nm.labels) if (l.find('\0') != std::string::npos) lenient = true;   // a label with a NUL octet cannot be handed to the callback as a C string: refusing the query is as good as running it ("may")
   }
   if (r.overlong && !k.overlong) { r.why = "question name longer than 255 octets"; return r; }
-  if (r.overlong) lenient = true;
+  if (r.overlong) { lenient = true; verif_known_skipped("C37/overlong-question-name-accepted"); }
   // the other sections
   bool rest_ok = true; int opts = 0, opts_clean = 0;
   for (int s = 0; s < 3 && rest_ok; s++) for (unsigned i = 0; i < cnt[s]; i++) {
@@ -275,7 +276,8 @@ extern "C" int LLVMFuzzerTestOneInput(const uint8_t *data, size_t size) {
   sim_reset();
   verif_case_begin("C37");
   Src s(data, size);
-  Knowns k = {false, false, false};      // no open finding narrows this check (see classify: the fields relax a verdict while one is open)
+  // open finding C37/overlong-question-name-accepted relaxes the verdict for question names of 256/257 octets to "may" (see classify)
+  Knowns k = {false, false, verif_known("C37/overlong-question-name-accepted") != 0};
   bool tcp = s.flag();
   int nmsg = 1 + s.below(4);
   Ctx c;
